@@ -517,6 +517,20 @@ def gen_fees(rng, n, tier):
             ops.append("block " + " | ".join(first))
             ops.append(BALS)
             tags.add("new-account-then-fee-failed-credit")
+        if r.random() < 0.3:
+            # an administrator that can no longer pay: it sends away all it had but the fee of that transfer and a little more, and
+            # its next transaction (a transfer, a contract call, an IBTP) costs more than it holds (or exactly what it holds) — what
+            # it holds is the fee, and the administrator is one of those the fee is shared among
+            adm = r.choice(["adm1", "adm2", "adm3"])
+            start = 10 ** 24 + {"adm1": 42000, "adm2": 42000, "adm3": 2352000}[adm]      # what the world's prelude leaves it with
+            left = r.choice([0, 1, 3, 1000, 15750 * price - 1, 15750 * price])             # its share of that fee is 5250 * price
+            ops.append(f"block xfer {adm} {r.choice(USERS)} {start - (21000 * price + left)}")
+            ops.append(BALS)
+            nxt = r.choice([f"xfer {adm} u0 1", f"xfer {adm} {adm} 5", f"bvm {adm} txmgr Begin s:1356:c1:s1-1356:c2:s1-1 u:3 b:0",
+                            f"ibtp {adm} c1:s1 c2:s1 1 req 0 - ok", f"xfer {adm} u1 0"])
+            ops.append("block " + nxt + (f" | xfer {adm} u2 1" if r.random() < 0.3 else ""))
+            ops.append(BALS)
+            tags.add("starved-admin-sender")
         for _ in range(r.randint(3, 10)):
             txs = []
             for _ in range(r.choice([1, 1, 1, 2, 3, 5])):
